@@ -236,8 +236,11 @@ VERUS = {
     'grow': dict(props=['C13', 'C08', 'C12'], tier='quick',
                  desc='reserve_rehash_inner, RawTable::reserve, RawTable::try_reserve and RawTableInner::with_capacity on extracted text against the contracts of rehash_in_place, resize_inner and fallible_with_capacity (the hint::unreachable_unchecked() calls are proved dead): success gives room and loses nothing, tombstones are reclaimed in place exactly when len+additional <= capacity/2, otherwise growth to at least max(len+additional, capacity+1), errors only in fallible mode with nothing changed, unrepresentable requests reported; plus the churn lemma L6: every growth step the contract allows, with at most m live elements and additional = 1, lands on at most max(16, 5(m+1)) buckets, so along any insert/remove history buckets <= max(initial, that bound)',
                  paired={}),
+    'iter': dict(props=['C09', 'C19', 'C02'], tier='quick',
+                 desc='the raw iterator core on extracted text, control pointers and buckets kept as indices into an arbitrary table (any power-of-two size, both widths): RawIterRange::new (yields exactly the FULL buckets of its range), RawIterRange::next_impl in checked and unchecked mode (returns the smallest remaining FULL bucket, consumes exactly it, None only when nothing is left, every group load aligned and in bounds, terminates), RawIter::next (items counts exactly what is left; None iff items == 0), RawIterRange::split (the two halves partition the remaining buckets, both again well-formed)',
+                 paired={}),
     'arith': dict(props=['C17', 'C08', 'C12', 'C13'], tier='quick',
-                  desc='capacity / layout / probe-step arithmetic on extracted text, and the probe-cycle theorem (triangular numbers are distinct modulo 2^g; k calls of move_next reach (start + W*k(k+1)/2) mod n; the first n/W positions are pairwise different and group-aligned), layout containment L7 over calculate_layout_for's contract (element ranges below the control bytes, pairwise disjoint, aligned for T; control bytes end at the allocation's end), all inputs, all table sizes, both group widths',
+                  desc='capacity / layout / probe-step arithmetic on extracted text, and the probe-cycle theorem (triangular numbers are distinct modulo 2^g; k calls of move_next reach (start + W*k(k+1)/2) mod n; the first n/W positions are pairwise different and group-aligned), layout containment L7 over the contract of calculate_layout_for (element ranges below the control bytes, pairwise disjoint, aligned for T; control bytes end where the allocation ends), all inputs, all table sizes, both group widths',
                   # Verus function -> the complete CBMC obligation proving the same contract (used for the
                   # brittleness exception and to search for a failing input)
                   paired={'capacity_to_buckets': 'h_capacity_to_buckets',
